@@ -123,3 +123,69 @@ Proof.
     rewrite exec_bind, exec_sget. cbv iota beta. sim. cbn [Z.eqb Pos.eqb orb].
     rewrite exec_bind, Et. reflexivity.
 Qed.
+
+(* ---------------------------------------------------------------- scripts split in two *)
+Lemma ops_ok_app : forall a ws b, ops_ok ws (a ++ b) -> ops_ok ws a /\ ops_ok (ws_after ws a) b.
+Proof.
+  induction a as [|op t IH]; intros ws b H; [split; [exact I|exact H]|].
+  destruct op as [w|ifid ts caplen len data o|ifid st|ty pl]; cbn [app ops_ok ws_after] in *; try contradiction.
+  - destruct H as (Hw & H). destruct (IH _ _ H). auto.
+  - destruct H as (Hw & H). destruct (IH _ _ H). auto.
+Qed.
+
+Lemma enc_ops_app a b : enc_ops (a ++ b) = enc_ops a ++ enc_ops b.
+Proof. unfold enc_ops. rewrite map_app, concat_app. reflexivity. Qed.
+
+(* ---------------------------------------------------------------- C14_ng_prefix for cuts behind the section header *)
+Theorem prefix_file ro sec i0 ops pre nxt post k :
+  ro_mixed ro = true -> sec_ok sec -> ops_ok [] (WAddIf i0 :: ops) -> zlen ops < 4294967290 ->
+  WAddIf i0 :: ops = pre ++ nxt :: post -> (k < length (enc_op nxt))%nat ->
+  let file := write_file sec i0 ops in
+  let F := fuel_for (zlen file) in
+  let cut := (length (enc_shb sec) + length (enc_ops pre) + k)%nat in
+  let r := fst (run_d (session ro F) (firstn cut file)) in
+  fst (fst (fst r)) = 0 /\ snd (fst (fst r)) = exp_pkts [] pre /\ snd (fst r) = (if (k =? 0)%nat then 1 else 2).
+Proof.
+  intros Hmix Hsec Hok Hb Hsplit Hk. cbv zeta.
+  destruct (write_file_shape sec i0 ops Hok Hb) as (Hfile & _). rewrite Hfile.
+  set (script := WAddIf i0 :: ops) in *.
+  destruct (script_sizes script [] Hok) as (Sz1 & Sz2).
+  destruct (enc_shb_shape sec Hsec) as (Eshb & HLs). cbv zeta in *.
+  assert (28 <= zlen (enc_shb sec)) as Hshb.
+  { rewrite Eshb. rewrite !zlen_app, !zlen_le_bytes. change (zlen [10;13;13;10]) with 4. change (zlen [77;60;43;26]) with 4.
+    change (zlen shb_fixed) with 12. pose proof (zlen_nonneg (opts_enc (shb_options sec))). lia. }
+  set (F := fuel_for (zlen (enc_shb sec ++ enc_ops script))).
+  assert (Z.of_nat F = zlen (enc_shb sec) + zlen (enc_ops script) + 2) as HF
+    by (unfold F, fuel_for; rewrite zlen_app; pose proof (zlen_nonneg (enc_ops script)); lia).
+  pose proof (zlen_nonneg (enc_ops script)) as Hnn. clearbody F.
+  assert (fuel_ok F script) as Hfo.
+  { split; [lia|]. eapply Forall_impl; [|exact Sz2]. intros [] Ha; auto. unfold zlen in *. lia. }
+  assert (length script < F)%nat as HlF by (unfold zlen in *; lia).
+  (* the cut input *)
+  rewrite Hsplit in *. rewrite enc_ops_app in *. cbn [enc_ops map concat] in *. fold (enc_ops post) in *.
+  rewrite firstn_app_split by lia. replace (length (enc_shb sec) + length (enc_ops pre) + k - length (enc_shb sec))%nat
+    with (length (enc_ops pre) + k)%nat by lia.
+  rewrite firstn_app_split by lia. replace (length (enc_ops pre) + k - length (enc_ops pre))%nat with k by lia.
+  rewrite firstn_app_le by lia.
+  destruct (ops_ok_app pre [] (nxt :: post) Hok) as (Hokpre & Hoknxt).
+  destruct Hfo as (HF12 & HFp). apply Forall_app in HFp. destruct HFp as (HFpre & HFnp). inversion HFnp as [|? ? HFn _]; subst.
+  rewrite app_length in HlF. cbn [length] in HlF.
+  (* NewNgReader *)
+  unfold session. rewrite run_d_bind.
+  assert (6 < F)%nat as HF6 by lia.
+  match goal with |- context [run_d (newReader ro F init_rst) ?l] => change (run_d (newReader ro F init_rst) l) with (exec (newReader ro F) init_rst l) end.
+  destruct (exec_newReader ro F sec (enc_ops pre ++ firstn k (enc_op nxt)) Hmix Hsec HF6) as (s0 & E0 & Q1 & Q2 & Q3).
+  rewrite E0. cbn [snd fst]. rewrite run_d_bind.
+  (* the tail *)
+  assert (tail_ends ro F (ws_after [] pre) (firstn k (enc_op nxt)) (if (k =? 0)%nat then 1 else 2)) as Htail.
+  { destruct k as [|k']; [cbn [firstn Nat.eqb]; apply tail_ends_nil|]. cbn [Nat.eqb].
+    intros s g (Hbig & Hifs) Hg. destruct g as [|g]; [lia|].
+    destruct nxt as [w|ifid ts caplen len data o|ifid st|ty pl]; cbn [ops_ok enc_op] in *; try contradiction.
+    - destruct Hoknxt as (Hw & _). destruct (trunc_idb ro F g s w (S k') Hbig Hw) as (s' & E); [pose proof (idb_options_len w); lia|lia|eauto].
+    - destruct Hoknxt as (Hwf & _). rewrite <- Hifs in Hwf.
+      destruct (trunc_epb ro F g s ifid ts caplen len data o (S k') Hmix Hbig HFn Hwf) as (s' & E); [lia|eauto]. }
+  assert (length pre < F)%nat as HlFp by lia.
+  destruct (read_all_script ro F _ _ _ Hmix Htail (length pre) pre [] s0 [] F
+              (le_n _) HlFp HlFp (conj Q1 Q2) Hokpre (conj HF12 HFpre) eq_refl) as (s' & l' & E).
+  rewrite E. cbn [fst snd run_d rev app]. repeat split; reflexivity.
+Qed.
